@@ -22,6 +22,9 @@ def rec(name, rtype, variant, ttl, flush):
         attrs = ["_", "6b=76", "6b=-"][variant % 3]
     elif rtype == 12:
         target = ["782e", "792e", "7a2e"][variant % 3]
+    elif rtype == 47:
+        # NSEC: same next-domain-name, type bitmaps of one length that differ only after a zero octet
+        return "%s,47,%d,%d,n,-,%s,0,0,0,_,%s" % (name, 1 if flush else 0, ttl, name, ["0000000040", "0000800040", "0000000041"][variant % 3])
     return "%s,%d,%d,%d,%s,%s,-,0,0,0,%s,." % (name, rtype, 1 if flush else 0, ttl, addr, target, attrs)
 
 
@@ -46,7 +49,7 @@ def gen_history(rng, nops, late=False, advb=False, huge=False):
         pending = False
         if k < 0.45 or not lines:
             name = rng.choice(NAMES[:2] if rng.random() < 0.9 else NAMES)
-            rtype = rng.choice([1, 1, 16, 12])
+            rtype = rng.choice([1, 1, 16, 12, 47])
             ttl = rng.choice(TTLS) if rng.random() < 0.8 else rng.randrange(1, 10)
             if huge and rng.random() < 0.4:
                 ttl = rng.choice(HUGE_TTLS)
@@ -174,7 +177,7 @@ def explore(ctx, project, attribute, replay=None, search_boost=False):
         res["violations"] += res2["violations"]
         res["exhaustive_depth"] = depth
         res["exhaustive"] = False
-    res["rule"] = ("histories of ADD/ADV/LOOKUP (+LATE) over 3 names x 3 types x 3 data values x TTL in "
+    res["rule"] = ("histories of ADD/ADV/LOOKUP (+LATE) over 3 names x 4 types (A, TXT, PTR, NSEC with bitmaps differing after a zero octet) x 3 data values x TTL in "
                    "{0,1,2,3,120,4500,604800,..} x flush x jitter, advances aimed at trigger and expiry instants "
                    "(-1/0/+1 ms), some of them stopping with the firing due at that very instant still pending (ADVB) so that the next ADD or LOOKUP is processed first; histories with TTLs far beyond a week (odd multiples of 2^29 s, 4294968 s, 2^32-1 s) under a clock below 2^29 ms; plus every history of <= %s operations over an 11-letter alphabet; a case is "
                    "non-trivial when the implementation produced at least one signal or non-empty lookup; "
